@@ -16,8 +16,8 @@ import (
 
 	"github.com/sheerbytes/sheerbytes/internal/transfer"
 	quic "github.com/sheerbytes/sheerbytes/internal/verif/venv/vquic"
-	vrt "github.com/sheerbytes/sheerbytes/internal/verif/vrt"
 	"github.com/sheerbytes/sheerbytes/internal/verif/vlib"
+	vrt "github.com/sheerbytes/sheerbytes/internal/verif/vrt"
 )
 
 // ---- C04: resuming after an interruption at any point ends in the identical tree ----
@@ -133,8 +133,8 @@ func (o *recObs) BeforeWrite(s *quic.Stream, p []byte) (int, quic.Fault) {
 }
 
 type c04Run struct {
-	kill     int    // kill the receiver at its k-th fs hook call (0 = never)
-	abort    bool   // ... after flushing all metadata first, as the application does on SIGINT
+	kill     int  // kill the receiver at its k-th fs hook call (0 = never)
+	abort    bool // ... after flushing all metadata first, as the application does on SIGINT
 	aborting bool
 	cutKind  string // or cut the connection
 	cutPos   int64
